@@ -288,7 +288,7 @@ def confirm_forwarding(sc, ft, method, name):
 
 def run(chk):
     P = chk.program(('core',))
-    maxlen = 2 if chk.tier == 'quick' else 3
+    maxlen = 3 if chk.tier == 'quick' else 5
     for ft in FRAMES:
         ob_lookup(chk, P, ft, maxlen)
         ob_roots(chk, P, ft)
